@@ -44,8 +44,9 @@ def run(rep, tier, seed):
                          cassettes=('memory',), n_conc=1, sample=1500)
             rep.exhaustive = bool(ex)
         else:
-            chk.check('chk', gen_consts(4, Vals=['v1', 'v2'], MaxRuns=3, MaxRecs=2), invariants=INVS,
-                      timeout=3000)
+            chk.check('chk', gen_consts(4, Vals=['v1', 'v2']), invariants=INVS, timeout=3000)
+            chk.check('chk3runs', gen_consts(2, MaxRuns=3, MaxRecs=2, InCalls=[('ia2', 2), ('ia1', 1)], OutAliases=['oa2'], Classes=[K('K1')],
+                                            Draws=['low'], OutResults=[('val', 'v1'), ('int', 'BI')]), invariants=INVS, timeout=3000)
             ex = chk.generate('gen2', gen_consts(2), cassettes=('memory', 'file'), n_conc=2, all_paths=True)
             chk.generate('gen3', gen_consts(3), cassettes=('memory',), n_conc=1, all_paths=True, cap=400000)
             rep.exhaustive = bool(ex)
